@@ -1,0 +1,32 @@
+// Copyright © 2022-2026 Obol Labs Inc. Licensed under the terms of a Business Source License 1.1
+
+//go:build verif
+
+// Verification contracts (comments only; read by /verif/govc, never compiled into charon).
+package combine
+
+//@ pure tbls.SecretToPublicKey tblsconv.PubkeyFromBytes tbls.RecoverSecret
+
+// Every key share found for a validator is filed under the share index whose public share in the lock it matches
+// (1-indexed), and a share that matches no public share of that validator is refused.
+//@ func shareIdxByPubkeys
+//@ props C12
+//@ ensures r1 == nil ==> forallk(si, r0, 1 <= si && si <= len(lock.Validators[valIndex].PubShares) && res(0, tbls.SecretToPublicKey(r0[si])) == res(0, tblsconv.PubkeyFromBytes(lock.Validators[valIndex].PubShares[si-1])))
+//@ loop 1 invariant forallk(pk, pubkMap, 1 <= pubkMap[pk] && pubkMap[pk] <= $i && pk == res(0, tblsconv.PubkeyFromBytes(lock.Validators[valIndex].PubShares[pubkMap[pk]-1])))
+//@ loop 2 invariant forallk(si, resp, 1 <= si && si <= len(lock.Validators[valIndex].PubShares) && res(0, tbls.SecretToPublicKey(resp[si])) == res(0, tblsconv.PubkeyFromBytes(lock.Validators[valIndex].PubShares[si-1])))
+
+// Recombination: per validator at least a threshold of shares, recovered with the lock's operator count and threshold
+// from the shares filed by index, and a recovered key is kept only if its public key is the lock's validator key; what
+// is written is exactly the list of keys that passed, in validator order.
+//@ func Combine
+//@ props C12
+//@ callreq shareIdxByPubkeys: a1 == lock && a3 == valIdx && len(a2) >= lock.Threshold
+//@ callreq tbls.RecoverSecret: a1 == shares && a2 == uint(len(lock.Operators)) && a3 == uint(lock.Threshold)
+//@ callreq o.keyStoreFunc: a1 == combinedKeys && a2 == outputDir && len(combinedKeys) == len(privkeys)
+//@ callreq o.keyStoreFunc: forall(j, 0, len(combinedKeys), res(0, tbls.SecretToPublicKey(combinedKeys[j])) == res(0, tblsconv.PubkeyFromBytes(lock.Validators[j].PubKey)))
+//@ ensures result == nil ==> ncalls(o.keyStoreFunc) == 1
+//@ loop 1 invariant true
+//@ loop 2 invariant true
+//@ loop 3 invariant true
+//@ loop 4 invariant len(combinedKeys) == $i && forall(j, 0, $i, res(0, tbls.SecretToPublicKey(combinedKeys[j])) == res(0, tblsconv.PubkeyFromBytes(lock.Validators[j].PubKey)))
+//@ loop 5 invariant true
